@@ -19,6 +19,9 @@ out = sys.argv[3]
 R = random.Random(seed)
 os.makedirs(out, exist_ok=True)
 
+HYGIENE = ["method", "parameters", "call", "params", "reply", "result", "connection", "conn", "args", "out", "error", "more", "oneway", "upgrade",
+           "value", "socket", "stream", "chain", "send", "flush", "res", "err", "item", "ok", "e", "s", "f", "this", "me", "wire", "rng", "rep", "ctx",
+           "expect", "got", "want", "frame", "what", "continues", "interface", "fds", "buf", "id"]
 WORDS = ["get", "set", "list", "url", "user", "info", "status", "watch", "ping", "drop", "a", "io", "x2", "2fa", "v6", "do",
          "state", "item", "all", "by", "id", "name", "make", "run", "log", "key", "ip4", "http", "ok", "z"]
 KEYWORDS = {"type", "match", "loop", "move", "ref", "use", "mod", "fn", "in", "as", "do", "box", "self", "super", "crate", "let", "if", "else", "for", "while", "impl", "trait", "struct", "enum", "true", "false", "where", "async", "await", "dyn", "static", "const", "pub", "return", "break", "continue", "unsafe", "extern", "mut", "try", "yield", "macro", "abstract", "become", "final", "override", "priv", "typeof", "unsized", "virtual"}
@@ -58,6 +61,10 @@ ARGS = [
     dict(ty="Option<i64>", gen="oiv(rng)", pas="{v}", js="json!({v})", opt=True),
     dict(ty="Option<String>", gen="osv(rng)", pas="{v}.clone()", js="json!({v})", opt=True),
     dict(ty="Option<bool>", gen="obv(rng)", pas="{v}", js="json!({v})", opt=True),
+    dict(ty="std::option::Option<i64>", gen="oiv(rng)", pas="{v}", js="json!({v})", opt=True),
+    dict(ty="core::option::Option<String>", gen="osv(rng)", pas="{v}.clone()", js="json!({v})", opt=True),
+    dict(ty="::std::option::Option<bool>", gen="obv(rng)", pas="{v}", js="json!({v})", opt=True),
+    dict(ty="::core::option::Option<&str>", gen="osv(rng)", pas="{v}.as_deref()", js="json!({v})", opt=True, life=True),
     dict(ty="&[i64]", gen="viv(rng)", pas="&{v}", js="json!({v})", life=True),
     dict(ty="Vec<String>", gen="vsv(rng)", pas="{v}.clone()", js="json!({v})"),
     dict(ty="&Pt", gen="ptv(rng)", pas="&{v}", js="serde_json::to_value(&{v}).unwrap()", life=True),
@@ -104,8 +111,16 @@ def gen_trait(k):
         anames = set()
         for a in range(nargs):
             while True:
-                an = snake(R.randint(1, 2))
-                if an not in anames and an not in ("self", "rng", "rep", "conn", "wire", "params", "call"):
+                r = R.random()
+                if r < 0.2:
+                    # names that macro-generated code is likely to use for its own locals / fields
+                    an = R.choice(HYGIENE)
+                elif r < 0.3:
+                    # keywords as raw identifiers (the wire name is the identifier without `r#`)
+                    an = "r#" + R.choice(["type", "in", "match", "where", "ref", "move", "use", "fn", "loop", "as", "mod", "let", "box", "try", "async", "dyn"])
+                else:
+                    an = snake(R.randint(1, 2))
+                if an not in anames and an != "self":
                     anames.add(an)
                     break
             if style == "explicit":
@@ -119,6 +134,8 @@ def gen_trait(k):
             else:
                 spec = dict(R.choice(ARGS))
             spec["name"] = an
+            spec["var"] = "a_" + an.replace("r#", "")
+            spec["key"] = an.replace("r#", "")
             spec["wire"] = (R.choice(["the", "x"]) + pascal(an) if R.random() < 0.5 else an.upper()) if R.random() < 0.3 else None
             args.append(spec)
         if style == "explicit" and not any("'a" in a["ty"] for a in args):
@@ -170,18 +187,18 @@ def driver(t, m, mi, others):
     fq = wire_method(t, m)
     decl = []
     for a in m["args"]:
-        decl.append(f'        let {a["name"]} = {a["gen"]};')
+        decl.append(f'        let {a["var"]} = {a["gen"]};')
     pbuild = ["        let mut params = Map::new();"]
     for a in m["args"]:
-        key = a["wire"] or a["name"]
-        val = a["js"].format(v=a["name"])
+        key = a["wire"] or a["key"]
+        val = a["js"].format(v=a["var"])
         if a.get("opt"):
-            pbuild.append(f'        if {a["name"]}.is_some() {{ params.insert("{key}".into(), {val}); }}')
+            pbuild.append(f'        if {a["var"]}.is_some() {{ params.insert("{key}".into(), {val}); }}')
         else:
             pbuild.append(f'        params.insert("{key}".into(), {val});')
     all_opt = bool(m["args"]) and all(a.get("opt") for a in m["args"])
     has_args = bool(m["args"])
-    callargs = ", ".join(a["pas"].format(v=a["name"]) for a in m["args"])
+    callargs = ", ".join(a["pas"].format(v=a["var"]) for a in m["args"])
     expect = f'Expect {{ method: "{fq}", params: {"Some(params.clone())" if has_args else "None"}, all_optional: {str(all_opt).lower()}, more: {str(m["kind"] == "more").lower()}, oneway: {str(m["kind"] == "oneway").lower()} }}'
     ctx = f'trait P{t["k"]} ({t["iface"]}) method {m["name"]}'
     low = m["out"]["low"]
@@ -275,17 +292,17 @@ def driver(t, m, mi, others):
         # the macro generates chain *extension* methods for plain methods only
         if starters and m["kind"] == "plain":
             o = starters[0]
-            odecl = [f'        let o_{a["name"]} = {a["gen"]};' for a in o["args"]]
+            odecl = [f'        let o_{a["var"]} = {a["gen"]};' for a in o["args"]]
             opb = ["        let mut oparams = Map::new();"]
             for a in o["args"]:
-                key = a["wire"] or a["name"]
-                val = a["js"].format(v="o_" + a["name"])
+                key = a["wire"] or a["key"]
+                val = a["js"].format(v="o_" + a["var"])
                 if a.get("opt"):
-                    opb.append(f'        if o_{a["name"]}.is_some() {{ oparams.insert("{key}".into(), {val}); }}')
+                    opb.append(f'        if o_{a["var"]}.is_some() {{ oparams.insert("{key}".into(), {val}); }}')
                 else:
                     opb.append(f'        oparams.insert("{key}".into(), {val});')
             oall = bool(o["args"]) and all(a.get("opt") for a in o["args"])
-            ocall = ", ".join(a["pas"].format(v="o_" + a["name"]) for a in o["args"])
+            ocall = ", ".join(a["pas"].format(v="o_" + a["var"]) for a in o["args"])
             oexp = f'Expect {{ method: "{wire_method(t, o)}", params: {"Some(oparams.clone())" if o["args"] else "None"}, all_optional: {str(oall).lower()}, more: {str(o["kind"] == "more").lower()}, oneway: false }}'
             w(f'    pub fn m{mi}_ext(rep: &mut Report, rng: &mut Rng) {{')
             w(f'        let ctx = "{ctx} [chain extension form, after chain_{o["name"]}]";')
@@ -366,8 +383,9 @@ def gen_errenum(k):
         fn_used = set()
         for _ in range(nf):
             while True:
-                fn = snake(R.randint(1, 2))
-                if fn not in fn_used and fn not in ("self", "rng", "rep"):
+                # now and then a name that the derive's generated code may use for its own locals
+                fn = R.choice(HYGIENE + ["map", "serializer", "deserializer", "seq", "key", "formatter", "visitor", "variant", "field", "state"]) if R.random() < 0.25 else snake(R.randint(1, 2))
+                if fn not in fn_used and fn != "self":
                     fn_used.add(fn)
                     break
             pool = EFIELDS + (EFIELDS_B if borrowed else [])
@@ -402,21 +420,21 @@ def err_module(e):
         fq = f'{e["iface"]}.{v["name"]}'
         s.append("        {\n")
         for f in v["fields"]:
-            s.append(f'            let {f["name"]} = {f["gen"]};\n')
+            s.append(f'            let f_{f["name"]} = {f["gen"]};\n')
         s.append("            let mut params = Map::new();\n")
         for f in v["fields"]:
             key = f["wire"] or f["name"]
             # the property: "a `parameters` object holding the variant's fields under their wire names"
-            s.append(f'            params.insert("{key}".into(), {f["js"].format(v=f["name"])});\n')
+            s.append(f'            params.insert("{key}".into(), {f["js"].format(v="f_" + f["name"])});\n')
         if v["fields"]:
             inits = []
             for f in v["fields"]:
                 if f["ty"] == "&'a str":
-                    inits.append(f'{f["name"]}: &{f["name"]}')
+                    inits.append(f'{f["name"]}: &f_{f["name"]}')
                 elif f["ty"] == "Option<&'a str>":
-                    inits.append(f'{f["name"]}: {f["name"]}.as_deref()')
+                    inits.append(f'{f["name"]}: f_{f["name"]}.as_deref()')
                 else:
-                    inits.append(f'{f["name"]}: {f["name"]}.clone()')
+                    inits.append(f'{f["name"]}: f_{f["name"]}.clone()')
             s.append(f'            let value = E::{v["name"]} {{ {", ".join(inits)} }};\n')
         else:
             s.append(f'            let value = E::{v["name"]};\n')
